@@ -249,7 +249,7 @@ int main() {
         auto w = vh::words(line);
         if (w.empty()) return;
         if (w[0] == "case") { drop_tree(); std::cout << line << "\n"; return; }
-        if (w[0] == "cfg" && w.size() == 2 && w[1].size() == 5 && root == nullptr &&
+        if (w[0] == "cfg" && w.size() == 2 && w[1].size() == 4 && root == nullptr &&
             w[1].find_first_not_of("01") == std::string::npos) { std::cout << "P cfg\n"; return; }
         if (w[0] == "tree") {
             Parser ps; ps.toks.assign(w.begin() + 1, w.end());
